@@ -216,4 +216,79 @@ theorem qualify_limit_does_not_commute :
       ≠ qualifyRewritten (fun _ r => col 0 r) (fun r => gt3 (col 1 r) (.int 1)) id 1
           (limitOffset (some 1) 0 [[.int 1], [.int 2]]) := by decide
 
+-- ------------------------------------------------------------------------------------------ alias generation
+/-- **`eliminate_qualify` hoists every window under its OWN alias**: whatever names the SELECT already uses and however
+    many windows the QUALIFY condition contains, the aliases produced by repeated `find_new_name(named_selects, "_w")`
+    are pairwise distinct, none collides with an existing name, and there is one per window -/
+theorem hoisted_aliases_distinct (base : String) (taken : List String) (k : Nat) (names : List String)
+    (h : hoistAliases base taken k = some names) :
+    names.Nodup ∧ (∀ n ∈ names, n ∉ taken) ∧ names.length = k :=
+  hoistAliases_spec base k taken names h
+
+/-- `find_new_name` never returns a taken name -/
+theorem find_new_name_fresh (taken : List String) (base n : String) (h : findNewName taken base = some n) :
+    n ∉ taken := findNewName_fresh taken base n h
+
+example : hoistAliases "_w" ["a", "_w", "_w_3"] 3 = some ["_w_2", "_w_4", "_w_5"] := by decide
+
+/-- the seeded regression "one alias `_w` for several hoisted windows" as a model fact: reusing the alias is exactly
+    what the loop must not do -/
+theorem hoisted_alias_reuse_not_distinct : ¬ (["_w", "_w"] : List String).Nodup ∧
+    hoistAliases "_w" ["a"] 2 = some ["_w", "_w_2"] := by decide
+
+-- ------------------------------------------------------------------------------------------ DISTINCT ON
+/-- `eliminate_distinct_on`'s core: keeping `ROW_NUMBER() OVER (PARTITION BY key ORDER BY …) = 1` is keeping the first
+    row of every key — for every ordered input, as sequences -/
+theorem distinct_on_as_row_number (key : Row → Val) (t : Table) : rowNumberOne key t = firstPerKey key t :=
+  rowNumberOneAux_eq key t [] [] (fun v => by simp)
+
+/-- PARTIAL (side condition: NO outer LIMIT/OFFSET; conclusion only as a BAG because the rewritten query has no
+    outer ORDER BY): the rewritten DISTINCT ON query returns the rows of the original -/
+theorem eliminate_distinct_on_partial (key : Row → Val) (ord : Table → Table) (t : Table) :
+    BagEq (distinctOnEliminated key ord none t) (distinctOnOriginal key ord none t) := by
+  simp only [distinctOnEliminated, distinctOnOriginal, limitOffset, List.drop_zero]
+  rw [distinct_on_as_row_number]
+
+/-- clean-tree finding C02-distinct-on-rewrite-limits-before-filter, precisely: with LIMIT 1 the original keeps one
+    row per key and then limits; the rewrite limits the unordered input first -/
+theorem eliminate_distinct_on_limit_counterexample :
+    distinctOnOriginal (col 0) id (some 2) [[.int 1, .int 1], [.int 1, .int 2], [.int 2, .int 3]]
+      = [[.int 1, .int 1], [.int 2, .int 3]] ∧
+    distinctOnEliminated (col 0) id (some 2) [[.int 1, .int 1], [.int 1, .int 2], [.int 2, .int 3]]
+      = [[.int 1, .int 1]] := by decide
+
+/-- clean-tree finding C02-distinct-on-loses-outer-order, precisely: the rewritten query reads a derived table and has
+    no ORDER BY, so every permutation of its rows is an admissible answer; one of them is not the original sequence -/
+theorem eliminate_distinct_on_order_counterexample :
+    ∃ answer : Table,
+      BagEq answer (distinctOnEliminated (col 0) List.reverse none [[.int 1], [.int 2]]) ∧
+      answer ≠ distinctOnOriginal (col 0) List.reverse none [[.int 1], [.int 2]] :=
+  ⟨[[.int 1], [.int 2]], by decide, by decide⟩
+
+-- ------------------------------------------------------------------------------------------ QUALIFY with ORDER BY / LIMIT
+/-- PARTIAL (side condition: NO LIMIT/OFFSET; conclusion as a BAG — with an ORDER BY the rewrite leaves it inside the
+    subquery): for every window function, condition, projection, table and every ORDER BY (any permutation of its
+    input) `eliminate_qualify` returns the rows of the original -/
+theorem eliminate_qualify_partial (w : Table → Row → Val) (cond : Row → B3) (proj : Row → Row) (width : Nat)
+    (ord : Table → Table) (hord : ∀ u, (ord u).Perm u) (t : Table) :
+    BagEq (qualifyEliminated w cond proj width ord none t) (qualifyOriginal w cond proj width ord none t) := by
+  simp only [qualifyEliminated, qualifyOriginal, limitOffset, List.drop_zero, project, select]
+  refine List.Perm.map _ ?_
+  exact ((hord _).filter _).trans (hord _).symm
+
+/-- clean-tree finding C02-qualify-rewrite-limits-before-filter, precisely: QUALIFY runs before LIMIT; the rewrite
+    limits first.  Window = the first column, condition `w > 1`, LIMIT 1 -/
+theorem eliminate_qualify_limit_counterexample :
+    qualifyOriginal (fun _ r => col 0 r) (fun r => gt3 (col 1 r) (.int 1)) id 1 id (some 1) [[.int 1], [.int 2]]
+      = [[.int 2]] ∧
+    qualifyEliminated (fun _ r => col 0 r) (fun r => gt3 (col 1 r) (.int 1)) id 1 id (some 1) [[.int 1], [.int 2]]
+      = [] := by decide
+
+/-- clean-tree finding C02-qualify-rewrite-loses-outer-order, precisely (same argument as for DISTINCT ON) -/
+theorem eliminate_qualify_order_counterexample :
+    ∃ answer : Table,
+      BagEq answer (qualifyEliminated (fun _ r => col 0 r) (fun _ => some true) id 1 List.reverse none [[.int 1], [.int 2]]) ∧
+      answer ≠ qualifyOriginal (fun _ r => col 0 r) (fun _ => some true) id 1 List.reverse none [[.int 1], [.int 2]] :=
+  ⟨[[.int 1], [.int 2]], by decide, by decide⟩
+
 end SqlglotModel.Properties.C02
